@@ -16,11 +16,11 @@
 (***************************************************************************)
 EXTENDS FixedWidth, FiniteSets, TLC, Json
 
-IntOps  == {"+", "-", "*", "/", "%", "&", "|", "^", "<<", ">>"}
+IntOps  == {"+", "-", "*", "/", "%", "&", "&^", "|", "^", "<<", ">>"}
 CmpOps  == {"==", "!=", "<", "<=", ">", ">="}
 BoolOps == {"&&", "||"}
 
-Prec(op) == CASE op \in {"*", "/", "%", "<<", ">>", "&"} -> 5
+Prec(op) == CASE op \in {"*", "/", "%", "<<", ">>", "&", "&^"} -> 5
               [] op \in {"+", "-", "|", "^"} -> 4
               [] op \in CmpOps \cup {"==b", "!=b"} -> 3
               [] op = "&&" -> 2
